@@ -25,6 +25,16 @@ theorem long_macros_clean : (longMacros_all.filter (fun s => !hasPrefix s)) = []
 theorem long_macro_bodies_self_contained : shortUses = [] := by decide
 
 
+/-- **Every spelling of ALLOW_CALL injects `INFINITY_TIMES()`, every spelling of FORBID_CALL `TIMES(0)`** — the C++14
+    form (`…_`) and both branches of the variadic form (`…_F`: no modifier argument, `…_T`: with modifiers), named
+    and unnamed (table regenerated from the `#define`s of /repo).  All twelve macros are present. -/
+theorem stmt_macros_inject_bounds :
+    stmtTimes = [("TROMPELOEIL_ALLOW_CALL_", "inf"), ("TROMPELOEIL_ALLOW_CALL_F", "inf"), ("TROMPELOEIL_ALLOW_CALL_T", "inf"),
+                 ("TROMPELOEIL_FORBID_CALL_", "0"), ("TROMPELOEIL_FORBID_CALL_F", "0"), ("TROMPELOEIL_FORBID_CALL_T", "0"),
+                 ("TROMPELOEIL_NAMED_ALLOW_CALL_", "inf"), ("TROMPELOEIL_NAMED_ALLOW_CALL_F", "inf"), ("TROMPELOEIL_NAMED_ALLOW_CALL_T", "inf"),
+                 ("TROMPELOEIL_NAMED_FORBID_CALL_", "0"), ("TROMPELOEIL_NAMED_FORBID_CALL_F", "0"), ("TROMPELOEIL_NAMED_FORBID_CALL_T", "0")] := by
+  decide
+
 /-! ### clause legality -/
 
 /-- the order on type-states: every flag that is set stays set (the call limit aside). -/
